@@ -757,3 +757,58 @@ func ruleC16e(c *Ctx) []*report.Result {
 	}
 	return []*report.Result{c.finish(r)}
 }
+
+// bytePreservingConv: the conversion keeps the bytes (or the number) it is
+// given: between string and []byte (named forms included), or between types
+// of the same underlying basic kind. A detour through []rune replaces invalid
+// UTF-8 by U+FFFD; byte -> rune -> writeRune re-encodes values >= 0x80.
+func bytePreservingConv(from, to types.Type) bool {
+	isBytes := func(t types.Type) bool {
+		sl, ok := t.Underlying().(*types.Slice)
+		if !ok {
+			return false
+		}
+		b, ok := sl.Elem().Underlying().(*types.Basic)
+		return ok && b.Kind() == types.Uint8
+	}
+	isString := func(t types.Type) bool {
+		b, ok := t.Underlying().(*types.Basic)
+		return ok && b.Info()&types.IsString != 0
+	}
+	if (isBytes(from) || isString(from)) && (isBytes(to) || isString(to)) {
+		return true
+	}
+	fb, ok1 := from.Underlying().(*types.Basic)
+	tb, ok2 := to.Underlying().(*types.Basic)
+	if ok1 && ok2 {
+		if fb.Kind() == tb.Kind() {
+			return true
+		}
+		// widening between integers of the same signedness keeps the number
+		// (what matters is then the primitive it is written with, checked by
+		// the caller); byte <-> rune is NOT accepted here
+		return false
+	}
+	return false
+}
+
+// lossyConvOnPath: walking from v back through conversions, the first one
+// that does not preserve its operand; nil if all do.
+func lossyConvOnPath(v ssa.Value) *ssa.Convert {
+	for i := 0; i < 8; i++ {
+		switch x := v.(type) {
+		case *ssa.ChangeType:
+			v = x.X
+		case *ssa.MakeInterface:
+			v = x.X
+		case *ssa.Convert:
+			if !bytePreservingConv(x.X.Type(), x.Type()) {
+				return x
+			}
+			v = x.X
+		default:
+			return nil
+		}
+	}
+	return nil
+}
